@@ -26,7 +26,10 @@ func init() {
 var aclTemplates = []string{
 	"GET R:s", "STRLEN R:s", "GETRANGE R:s 0 -1", "SUBSTR R:s 0 1", "TTL R:s", "PTTL R:s", "EXPIRETIME R:s", "PEXPIRETIME R:s", "TYPE R:s",
 	"MGET R:s R:s", "MGET R:s R:s R:s", "TOUCH R:s R:s",
-	"SET W:s v", "SET W:s v NX", "SET B:s v GET", "SET B:s v XX GET", "SETRANGE W:s 0 v", "APPEND W:s v", "INCR W:n", "DECR W:n", "INCRBY W:n 2", "DECRBY W:n 2", "INCRBYFLOAT W:n 1.5",
+	"SET W:s v", "SET W:s v NX", "SET B:s v GET", "SET B:s v XX GET",
+	// every position the GET option can take among the other options
+	"SET B:s v EX 100 GET", "SET B:s v PX 100000 GET", "SET B:s v EXAT 1893459999 GET", "SET B:s v PXAT 1893459999000 GET", "SET B:s v GET EX 100", "SET B:s v NX GET", "SET B:s v NX EX 100 GET", "SET B:s v GET XX PX 5000",
+	"SET B:s v get", "SET B:s v ex 100 get", "SET W:s v EX 100", "SET W:s v XX PX 100000", "SETRANGE W:s 0 v", "APPEND W:s v", "INCR W:n", "DECR W:n", "INCRBY W:n 2", "DECRBY W:n 2", "INCRBYFLOAT W:n 1.5",
 	"PERSIST W:s", "EXPIRE W:s 100", "PEXPIRE W:s 100000", "EXPIREAT W:s 1893459999", "PEXPIREAT W:s 1893459999000",
 	"MSET W:s v W:s v", "MSET W:s v W:s v W:s v", "DEL W:s", "DEL W:s W:s", "DEL W:s W:s W:s",
 	"GETDEL B:s", "GETEX B:s", "GETEX B:s EX 100", "RENAME S:s W:s",
@@ -279,7 +282,7 @@ func aclPopulate(in *Inst) {
 
 func checkC06(ctx *Ctx) {
 	ctx.Rule("one evaluation = one authorization decision: a command instance (every registered command and subcommand, with every assignment of permitted/forbidden keys and channels to its key positions, taken from the harness's own declarative key table) " +
-		"sent over TCP by a connection in a given authentication state (fresh, failed AUTH, authenticated, authenticated then disabled / restricted / deleted through ACL SETUSER/DELUSER, authenticated then given tighter rules through ACL SAVE + ACL LOAD REPLACE) as a user with a given rule set; " +
+		"sent over TCP by a connection in a given authentication state (fresh, failed AUTH, authenticated, authenticated then disabled / restricted / deleted through ACL SETUSER/DELUSER, authenticated then given tighter rules through ACL SAVE + ACL LOAD REPLACE, authenticated then failing to authenticate as another user) as a user with a given rule set; " +
 		"whenever the declarative evaluator written from the documentation says DENIED, the reply must be an error and the dataset, the ACL listing and the pub/sub table must be unchanged. " +
 		"Commands the real gate denies although the evaluator allows them are counted as over-restriction, not as violations. distinct_nontrivial = distinct (command, denial reason class, authentication state) decided")
 	ctx.Assume("the server requires authentication (RequirePass) in every instance of this check", "rule sets are given to ACL SETUSER in documented, unambiguous spellings; how SETUSER parses other spellings is C11's")
@@ -376,6 +379,13 @@ func checkC06(ctx *Ctx) {
 	}
 	base := aclRules{Enabled: true, AllCats: true, AllCmds: true, AllChans: true}
 	cfgs = append(cfgs, cfg{base, "fresh"}, cfg{base, "failed-auth"}, cfg{base, "then-disabled"}, cfg{base, "then-restricted"}, cfg{base, "then-deleted"})
+	// a failed AUTH as another (more privileged) user after a successful one: the connection stays who it was
+	for _, k := range []int{1, 2} {
+		if k < len(keySets) {
+			ks := keySets[k]
+			cfgs = append(cfgs, cfg{aclRules{Enabled: true, AllCmds: true, InclCats: []string{"read"}, NoKeys: ks.NoKeys, ReadGlobs: ks.ReadGlobs, WriteGlobs: ks.WriteGlobs, AllChans: true}, "then-failed-auth-other"})
+		}
+	}
 	// rules replaced through the ACL file (ACL SAVE of the tighter rules, then ACL LOAD REPLACE) after the connection authenticated
 	for _, k := range []int{1, 2} {
 		if k < len(keySets) {
@@ -562,6 +572,13 @@ func c06Config(ctx *Ctx, in *Inst, port int, admin *Client, u aclRules, state st
 			authenticated = true
 		}
 		switch state {
+		case "then-failed-auth-other":
+			for _, other := range [][]string{{"AUTH", "default", "wrong-password"}, {"AUTH", "wrong-password"}, {"HELLO", "2", "AUTH", "default", "wrong-password"}, {"AUTH", "nosuchuser", "x"}} {
+				if v, _, _ := c.Do(other...); !v.IsError() {
+					ctx.Violate(Violation{Kind: "auth", Lane: "acl", What: Step{Argv: other}.String() + " succeeded", Case: map[string]interface{}{"user": create.tokens()}, Key: "c06|auth-wrong-other"})
+				}
+			}
+			// still u1, still under u1's rules
 		case "then-load-replace":
 			if v, _, err := admin.Do("ACL", "LOAD", "REPLACE"); err != nil || v.IsError() {
 				ctx.Broken(fmt.Sprintf("ACL LOAD REPLACE failed: %v %s", err, v.String()))
